@@ -17,15 +17,15 @@ Proof. split; [vm_compute; reflexivity|]. eexists. split; [vm_compute; reflexivi
 Definition hist : list (strategy * list row) :=
   [(SError, [nd (U "a"%bs) [U "r"%bs]; nd (U "b"%bs) [U "a"%bs]; nd (U "c"%bs) [U "b"%bs]; nd (U "d"%bs) [U "c"%bs]]);
    (SCreateUnique, [nd (U "e"%bs) [U "d"%bs]]);
-   (SMerge, [nd (U "r"%bs) []; nd (U "e"%bs) [U "d"%bs]])].
+   (SMerge, [nd (U "r"%bs) []; nd (U "e"%bs) [U "d"%bs]]);
+   (SReplace, [nd (U "d"%bs) [U "a"%bs]])].          (* d re-parented from c to a: b stops being its grandparent, r becomes one *)
 Example C02_history_inhabited : exists st', imports (fun _ _ => None) [] (SList [KAttr IDK]) hist empty_st = Ok st' /\
-  (forall b, In b hist -> fst b <> SReplace) /\
   existsb (rel_eqb (mkRel (U "a"%bs) (U "d"%bs) 2)) (s_rels st') = false /\
-  existsb (rel_eqb (mkRel (U "b"%bs) (U "d"%bs) 2)) (s_rels st') = true /\
+  existsb (rel_eqb (mkRel (U "b"%bs) (U "d"%bs) 2)) (s_rels st') = false /\
+  existsb (rel_eqb (mkRel (U "r"%bs) (U "d"%bs) 2)) (s_rels st') = true /\
+  existsb (rel_eqb (mkRel (U "a"%bs) (U "e"%bs) 2)) (s_rels st') = true /\
   existsb (rel_eqb (mkRel (U "r"%bs) (U "b"%bs) 2)) (s_rels st') = true /\
-  existsb (rel_eqb (mkRel (U "c"%bs) (U "e"%bs) 2)) (s_rels st') = true.
+  existsb (rel_eqb (mkRel (U "c"%bs) (U "e"%bs) 2)) (s_rels st') = false.
 Proof.
-  eexists. split; [vm_compute; reflexivity|]. split.
-  - intros b Hb. repeat (destruct Hb as [Hb|Hb]; [subst b; discriminate|]). destruct Hb.
-  - vm_compute. repeat split.
+  eexists. split; [vm_compute; reflexivity|]. vm_compute. repeat split.
 Qed.
